@@ -617,7 +617,7 @@ func (e *pjEnv) pjCase(src string, prefill bool, cfgSrc string) (lintLine, lintI
 		os.WriteFile(cfgPath, []byte(cfgSrc), 0o644)
 	}
 	cenv := pjConfigEnvSexp(cfgSrc, &root)
-	lintLine = "lintwfp " + numsSexp(nums) + " " + lwBadURLs(&root) + " " + env + " " + aenv + " " + cenv + " " + node
+	lintLine = "lintwfp " + numsSexp(nums) + " " + lwBadURLs(&root) + " " + lwZones(&root) + " " + env + " " + aenv + " " + cenv + " " + node
 	exprLine = "exprwfp " + numsSexp(nums) + " " + env + " " + aenv + " " + cenv + " " + node
 	l, err := actionlint.NewLinter(nopWriter{}, &actionlint.LinterOptions{Shellcheck: "", Pyflakes: ""})
 	if err != nil {
@@ -637,6 +637,7 @@ func (e *pjEnv) pjCase(src string, prefill bool, cfgSrc string) (lintLine, lintI
 		return "", "", "", "", false
 	}
 	var lparts, eparts []string
+	markers, skip := lwCronSkips(src)
 	for _, er := range errs {
 		if er.Kind == "expression" {
 			if c, ok := pjClassifyExpr(er.Message); ok {
@@ -646,8 +647,8 @@ func (e *pjEnv) pjCase(src string, prefill bool, cfgSrc string) (lintLine, lintI
 			}
 			continue
 		}
-		if er.Kind == "events" && (strings.HasPrefix(er.Message, "invalid CRON format") || strings.HasPrefix(er.Message, "scheduled job runs too frequently")) {
-			continue
+		if lwCronSkipped(er, skip) {
+			continue // the interval of a schedule in a zone other than UTC is not modelled
 		}
 		if er.Kind == "workflow-call" {
 			if c, ok := pjCanonWC(er); ok {
@@ -668,7 +669,7 @@ func (e *pjEnv) pjCase(src string, prefill bool, cfgSrc string) (lintLine, lintI
 		}
 	}
 	sort.Strings(eparts)
-	return lintLine, strings.Join(lparts, ";"), exprLine, strings.Join(eparts, ";"), true
+	return lintLine, strings.Join(append(lparts, markers...), ";"), exprLine, strings.Join(eparts, ";"), true
 }
 
 // pjStandard: n generated callers (+ directed ones) through both ties
@@ -678,6 +679,7 @@ func pjStandard(c *ctx, r *Report, n int) error {
 		return err
 	}
 	defer env.close()
+	lwLocalUTC(r)
 	rng := rand.New(rand.NewSource(c.seed*104729 + 3))
 	directed := []string{
 		// the callee's defect is reported once, by the first job in source order; by the expression rule when a job that
@@ -690,6 +692,11 @@ func pjStandard(c *ctx, r *Report, n int) error {
 		"on: push\njobs:\n  a:\n    needs: b\n    runs-on: ubuntu-latest\n    steps:\n      - run: echo ${{ needs.b.outputs.zz }}\n  b:\n    uses: ./.github/workflows/x@v1.yml\n  c:\n    needs: b\n    runs-on: ubuntu-latest\n    steps:\n      - run: echo ${{ needs.b.outputs.zz }}\n",
 		"on:\n  workflow_call:\n    inputs:\n      selfin:\n        type: number\n        required: true\njobs:\n  a:\n    uses: ./.github/workflows/caller.yml\n    with:\n      selfin: abc\n  b:\n    uses: ./.github/workflows/caller.yml\n",
 	}
+	// the CRON check inside a project (the zone names go to `lintwfp` as they go to `lintwf`)
+	directed = append(directed,
+		"on:\n  schedule:\n    - cron: '*/4 * * * *'\n    - cron: 'TZ=Asia/Tokyo * * * * *'\n    - cron: 'TZ=UTC'\n    - cron: '61 * * * *'\n    - cron: 'TZ=Nowhere/Land 0 0 * * *'\n  push:\njobs:\n  a:\n    uses: ./.github/workflows/ok1.yml\n    with:\n      name: x\n",
+		"on:\n  workflow_dispatch:\n    inputs:\n      c:\n        type: choice\n  schedule:\n    - cron: '0 0 31 2 *'\n    - cron: 'CRON_TZ=UTC 0,2 * * * *'\n    - cron: '0 0 * * *'\njobs:\n  a:\n    runs-on: ubuntu-latest\n    steps:\n      - uses: ./.github/actions/nosuch\n",
+	)
 	// every local action of the scratch repository: used twice in one job (the metadata is checked at the first use only),
 	// once with an id whose outputs are read, with a declared, a missing and an undeclared input
 	for _, sp := range pjActionSpecs {
@@ -732,13 +739,13 @@ func pjStandard(c *ctx, r *Report, n int) error {
 			if i%4 != 0 {
 				continue
 			}
-			f := strings.SplitN(ll, " ", 7) // lintwfp nums urls env aenv cenv node
+			f := strings.SplitN(ll, " ", 8) // lintwfp nums urls zones env aenv cenv node
 			g := strings.SplitN(exprLines[i], " ", 6)
-			if len(f) != 7 || len(g) != 6 {
+			if len(f) != 8 || len(g) != 6 {
 				continue
 			}
-			a = append(a, "lintwf "+f[1]+" "+f[2]+" "+f[6], "exprwf "+g[1]+" "+g[5])
-			b = append(b, "lintwfp "+f[1]+" "+f[2]+" (0,N,E) (0,E,E,E) (E,N,E,E) "+f[6], "exprwfp "+g[1]+" (0,N,E) (0,E,E,E) (E,N,E,E) "+g[5])
+			a = append(a, "lintwf "+f[1]+" "+f[2]+" "+f[3]+" "+f[7], "exprwf "+g[1]+" "+g[5])
+			b = append(b, "lintwfp "+f[1]+" "+f[2]+" "+f[3]+" (0,N,E) (0,E,E,E) (E,N,E,E) "+f[7], "exprwfp "+g[1]+" (0,N,E) (0,E,E,E) (E,N,E,E) "+g[5])
 		}
 		ao, err := runModel(c.driver, a)
 		if err != nil {
@@ -774,6 +781,8 @@ func pjStandard(c *ctx, r *Report, n int) error {
 				r.hist("projcall:wc:" + f[3])
 			} else if len(f) >= 4 && f[2] == "action" {
 				r.hist("projcall:action:" + f[3])
+			} else if len(f) >= 4 && strings.HasPrefix(f[3], "cron-") {
+				r.hist("projcall:events:" + f[3])
 			}
 		}
 		for _, d := range strings.Split(exprImpls[i], ";") {
